@@ -42,6 +42,8 @@ def _stream(rng, gen: int):
     for _ in range(n):
         if rng.random() < 0.2:
             frames.append(framegen.unknown_frame(rng, gen)[0])
+        elif rng.random() < 0.08:
+            frames.append(framegen.foreign_address_frame(rng, gen)[0])  # traffic of another client on the same link
         else:
             frames.append(framegen.frame(rng, gen)[0])
     if rng.random() < 0.08:
